@@ -231,9 +231,18 @@ def run_case(col, r, idx):
                 t.value = v
                 log.append(('value', repr(v)))
             elif kind == 'raw_text':
-                raw = (cls.from_value(v, indent=r.choice(['', ' ', '\t'])) if cls is models.BlockComment else cls.from_value(v)).raw_text
+                raw = values.respell(r, t) if r.random() < 0.4 else None      # the current value spelled differently
+                if raw is None:
+                    raw = (cls.from_value(v, indent=r.choice(['', ' ', '\t'])) if cls is models.BlockComment else cls.from_value(v)).raw_text
+                else:
+                    col.count('respelled_raw_text')
                 t.raw_text = raw
                 log.append(('raw_text', raw))
+                if t.raw_text != raw:
+                    col.ev()
+                    col.violation(f'raw-text-not-verbatim-after-assignment:{cname}', f'assigned raw_text {raw!r}, the token keeps {t.raw_text!r}',
+                                  {'class': cname, 'log': log})
+                    return
             else:
                 ind = r.choice(['', '  ', '\t', '    '])
                 t.indent = ind
